@@ -31,6 +31,43 @@ LOG_PREFIX = ('logging.', 'absl.logging.', 'warnings.')
 SHAPE_READS = {'len'}
 
 
+# prefix of reasons that say "this construct is outside what the analysis classifies" - not a positive finding of order
+# sensitivity.  Rule modules report a site whose reasons are all of this class as "cannot decide" (exit 2), never as a VIOLATION.
+UNK = 'cannot classify: '
+
+
+def undecided_reason(site, reasons=None):
+  """The reason string if the site is only unclassified (not positively order-sensitive), else None."""
+  reasons = site.reasons if reasons is None else reasons
+  if not reasons:
+    return None
+  if site.prov.detail.startswith(UNK) or all(r.startswith(UNK) for r in reasons):
+    return '; '.join(r for r in reasons if r.startswith(UNK)) or site.prov.detail
+  return None
+
+
+def instrument_order(ctx, fi, o, rule, keeps_order):
+  """Location-independent: PrettyMIDI keeps the order of pm.instruments (pmfacts.write_keeps_instrument_order), so a loop that
+  appends to `<pm>.instruments` must not run in an order derived from storage order (e.g. the insertion order of a dict that
+  was filled while walking the notes): the tracks - and the instrument numbers read back - would depend on how the events
+  happen to be stored."""
+  if not keeps_order:
+    return
+  for lp in ast.walk(fi.node):
+    if not isinstance(lp, ast.For):
+      continue
+    if not any(isinstance(c, ast.Call) and isinstance(c.func, ast.Attribute) and c.func.attr in ('append', 'extend', 'insert') and
+               isinstance(c.func.value, ast.Attribute) and c.func.value.attr == 'instruments' for c in ast.walk(lp)):
+      continue
+    p = o.prov(lp.iter, lp)
+    # a dict filled while walking storage order yields its keys / items in insertion order, i.e. first appearance in storage order
+    bad = (p.kind in ('STORAGE', 'BADSORT') and not p.detail.startswith(UNK)) or (p.kind == 'OTHER' and p.detail.startswith('dict:'))
+    ctx.ob(rule, fi, lp, not bad, 'instruments are created in %s order' % ('sorted key' if p.kind == 'SORTED' else 'an order independent of storage') if not bad else
+           'instruments are appended to the PrettyMIDI object while iterating %s in storage-derived order (%s); PrettyMIDI.write keeps that order, so track order and the '
+           'instrument numbers read back depend on the order in which the events are stored' % (norm_text(lp.iter), p.detail), construct='order in which instruments are created',
+           definite=True, unknown=(p.detail if p.detail.startswith(UNK) else None))
+
+
 class Prov:
   __slots__ = ('kind', 'detail')
 
@@ -145,10 +182,24 @@ class FuncORD:
             node.value.id in self.ns_names)
 
   def sort_key_ok(self, key, src=None):
-    """Does the sort key start with a time/step field of the element?"""
+    """Does the sort key start with a time/step field of the element?  True / False / 'tuple:<i>' / 'unknown'."""
     if key is None:
       return False
     d = dotted(key.func) if isinstance(key, ast.Call) else None
+    if isinstance(key, ast.Name):
+      # a named key function: a local or module-level def with a single return, or a name bound once to a lambda
+      defs = [n for n in ast.walk(self.fn) if isinstance(n, ast.FunctionDef) and n.name == key.id and n is not self.fn]
+      if not defs and getattr(self.fi, 'module', None) is not None and key.id in self.fi.module.functions:
+        defs = [self.fi.module.functions[key.id].node]
+      lambdas = [s.value for s in ast.walk(self.fn) if isinstance(s, ast.Assign) and len(s.targets) == 1 and isinstance(s.targets[0], ast.Name) and
+                 s.targets[0].id == key.id and isinstance(s.value, ast.Lambda)]
+      if len(defs) == 1 and not lambdas:
+        body = [b for b in defs[0].body if not (isinstance(b, ast.Expr) and isinstance(b.value, ast.Constant))]
+        if len(body) == 1 and isinstance(body[0], ast.Return) and body[0].value is not None:
+          return self.sort_key_ok(ast.Lambda(args=defs[0].args, body=body[0].value))
+      if len(lambdas) == 1 and not defs:
+        return self.sort_key_ok(lambdas[0])
+      return 'unknown'
     if isinstance(key, ast.Lambda):
       body = key.body
       first = body.elts[0] if isinstance(body, ast.Tuple) and body.elts else body
@@ -181,11 +232,13 @@ class FuncORD:
         ok = self.sort_key_ok(key)
         if ok is True:
           return Prov('SORTED', norm_text(key))
-        if isinstance(ok, str):
+        if isinstance(ok, str) and ok.startswith('tuple:'):
           if self._tuple_position_is_time(node.args[0], int(ok.split(':')[1]), at):
             return Prov('SORTED', norm_text(key))
         if key is None and self._elements_are_time_tuples(node.args[0], at):
           return Prov('SORTED', 'natural order of (time, ...) tuples')
+        if ok == 'unknown':
+          return Prov('BADSORT', UNK + 'sorted() of storage-ordered data with key %s, which could not be resolved to its fields' % norm_text(key))
         return Prov('BADSORT', 'sorted() of storage-ordered data with key %s that does not start with a time/step field' % (
             norm_text(key) if key is not None else 'None'))
       if d in ORDER_PRESERVING:
@@ -256,7 +309,7 @@ class FuncORD:
       for (ln, key, st) in self.sorts.get(name, []):
         if last_def <= ln < at_line and not any(ln < l2 < at_line for (l2, _s) in self.appends.get(name, [])):
           ok = self.sort_key_ok(key)
-          if ok is True or (isinstance(ok, str) and self._tuple_position_is_time(ast.Name(id=name, ctx=ast.Load()), int(ok.split(':')[1]), st)):
+          if ok is True or (isinstance(ok, str) and ok.startswith('tuple:') and self._tuple_position_is_time(ast.Name(id=name, ctx=ast.Load()), int(ok.split(':')[1]), st)):
             return Prov('SORTED', norm_text(key))
           return Prov('BADSORT', '.sort() with key %s that does not start with a time/step field' % (norm_text(key) if key is not None else 'None'))
     return p
@@ -391,6 +444,8 @@ class FuncORD:
               self.sites.append(Site('traversal', sub, st, p, reasons, norm_text(sub)))
           elif isinstance(sub, ast.Subscript) and isinstance(sub.ctx, ast.Load):
             p = self.prov(sub.value, st)
+            if isinstance(sub.slice, ast.Constant) and isinstance(sub.slice.value, str):
+              continue      # a lookup by string key is not a positional read
             if p.kind in ('STORAGE', 'BADSORT') and not isinstance(sub.value, ast.Subscript):
               if self._just_added_idiom(sub, st):
                 self.sites.append(Site('positional', sub, st, p, [], norm_text(sub)))
@@ -465,7 +520,7 @@ class FuncORD:
         return []   # bag accumulation of the produced elements
       if d == 'sorted' or (isinstance(par.func, ast.Attribute) and par.func.attr == 'join'):
         return [] if d == 'sorted' else ['storage-ordered elements joined into a string']
-      return ['storage-ordered sequence passed to %s, whose order sensitivity is unknown' % (d or norm_text(par.func))]
+      return [UNK + 'storage-ordered sequence passed to %s, whose order sensitivity is unknown' % (d or norm_text(par.func))]
     return self._flow_of_value(child, st)
 
   def _dictcomp(self, comp):
@@ -491,7 +546,7 @@ class FuncORD:
         return [] if d in INSENSITIVE_CONSUMERS else self._flow_of_value(par, st)
       if isinstance(par.func, ast.Attribute) and par.func.attr in ACCUMULATE:
         return []
-      return ['storage-ordered sequence passed to %s, whose order sensitivity is unknown' % (d or norm_text(par.func))]
+      return [UNK + 'storage-ordered sequence passed to %s, whose order sensitivity is unknown' % (d or norm_text(par.func))]
     if isinstance(par, ast.comprehension) or isinstance(par, (ast.For,)):
       return []   # it is itself traversed: that traversal is classified on its own
     if isinstance(par, ast.Compare):
@@ -500,8 +555,8 @@ class FuncORD:
       return []
     if isinstance(par, ast.keyword):
       call = U.parent(self.fn, par)
-      return ['storage-ordered sequence passed as %s= to %s' % (par.arg, norm_text(call.func) if isinstance(call, ast.Call) else '?')]
-    return ['storage-ordered sequence flows to %s' % type(par).__name__]
+      return [UNK + 'storage-ordered sequence passed as %s= to %s' % (par.arg, norm_text(call.func) if isinstance(call, ast.Call) else '?')]
+    return [UNK + 'storage-ordered sequence flows to %s' % type(par).__name__]
 
   # ---- loop bodies
   def classify_loop(self, loop):
